@@ -200,6 +200,61 @@ m("lexer-comment-end-from-raw", LEXKEEP, "keep", "lexer.go",
   "			Raw:   l.Buffer[i:l.pos],\n			Pos:   token.Pos(i),\n			End:   token.Pos(l.pos),",
   "			Raw:   l.Buffer[i:l.pos],\n			Pos:   token.Pos(i),\n			End:   token.Pos(i + len(l.Buffer[i:l.pos])),")
 
+
+# ---- rules added after the second sub-agent round: rewrites that must stay silent, and one break each ----------
+m("badnode-sep-by-sum", ["C10"], "keep", "ast/sql.go",
+  "		if sql != \"\" && (len(tok.Space) > 0 || len(tok.Comments) > 0) {",
+  "		if n := len(tok.Space) + len(tok.Comments); sql != \"\" && n > 0 {")
+m("badnode-sep-space-only", ["C10"], "break", "ast/sql.go",
+  "		if sql != \"\" && (len(tok.Space) > 0 || len(tok.Comments) > 0) {",
+  "		if sql != \"\" && len(tok.Space) > 0 {")
+m("lookahead-namedarg-nexttoken", ["C08"], "keep", "parser.go",
+  "	if p.Token.Kind != token.TokenIdent {\n		return false\n	}\n	p.parseIdent()\n	return p.Token.Kind == \"=>\"",
+  "	if p.Token.Kind != token.TokenIdent {\n		return false\n	}\n	p.nextToken()\n	return p.Token.Kind == \"=>\"")
+m("lookahead-namedarg-unguarded", ["C08"], "break", "parser.go",
+  "	if p.Token.Kind != token.TokenIdent {\n		return false\n	}\n	p.parseIdent()\n	return p.Token.Kind == \"=>\"",
+  "	p.parseIdent()\n	return p.Token.Kind == \"=>\"", "the suite has no call whose first argument is not an identifier?")
+m("exprprec-reordered", ["C07", "C01", "C02"], "keep", "ast/sql.go",
+  "*DateLiteral, *TimestampLiteral, *NumericLiteral, *JSONLiteral, *WithExpr,",
+  "*JSONLiteral, *NumericLiteral, *TimestampLiteral, *DateLiteral, *WithExpr,")
+m("param-skip-by-name-length", ["C05", "C06", "C13"], "keep", "lexer.go",
+  "			l.Token.Kind = token.TokenParam\n			l.Token.AsString = l.Buffer[l.pos+1 : l.pos+i]\n			l.skipN(i)",
+  "			l.Token.Kind = token.TokenParam\n			name := l.Buffer[l.pos+1 : l.pos+i]\n			l.Token.AsString = name\n			l.skipN(len(name) + 1)")
+m("param-name-drops-last-byte", ["C05", "C06"], "break", "lexer.go",
+  "			l.Token.AsString = l.Buffer[l.pos+1 : l.pos+i]\n			l.skipN(i)",
+  "			l.Token.AsString = l.Buffer[l.pos+1 : l.pos+i-1]\n			l.skipN(i)", "suite has params; expected suite-FAIL")
+m("position-count-max", ["C03"], "keep", "token/file.go",
+  "		count := endColumn - column - 1\n		if count < 0 {\n			count = 0\n		}",
+  "		count := max(0, endColumn-column-1)")
+m("position-count-unclamped", ["C03"], "break", "token/file.go",
+  "		count := endColumn - column - 1\n		if count < 0 {\n			count = 0\n		}",
+  "		count := endColumn - column - 1")
+m("skipspaces-ascii-fastpath", ["C13", "C14", "C03"], "keep", "lexer.go",
+  "	for !l.eof() {\n		r, size := utf8.DecodeRuneInString(l.Buffer[l.pos:])",
+  "	for !l.eof() {\n		if c := l.peek(0); c == ' ' || c == '\\n' || c == '\\t' || c == '\\r' {\n			l.skip()\n			continue\n		}\n		r, size := utf8.DecodeRuneInString(l.Buffer[l.pos:])")
+m("selector-sep-always-for-digits", ["C01"], "keep", "ast/sql.go",
+  "	expr := paren(p, s.Expr)\n	return expr + dotSep(expr) + \".\" + s.Ident.SQL()",
+  "	expr := paren(p, s.Expr)\n	sep := dotSep(expr)\n	return expr + sep + \".\" + s.Ident.SQL()")
+m("selector-no-sep", ["C01"], "break", "ast/sql.go",
+  "	expr := paren(p, s.Expr)\n	return expr + dotSep(expr) + \".\" + s.Ident.SQL()",
+  "	return paren(p, s.Expr) + \".\" + s.Ident.SQL()")
+m("errmsg-formats-node", ["C18"], "break", "parser.go",
+  "		p.panicfAtToken(&p.Token, `expect '{' or '(', but %v`, p.Token.Kind)",
+  "		p.panicfAtToken(&p.Token, `expect '{' or '(' after %v, but %v`, namedType, p.Token.Kind)")
+m("errmsg-formats-sql", ["C18"], "keep", "parser.go",
+  "		p.panicfAtToken(&p.Token, `expect '{' or '(', but %v`, p.Token.Kind)",
+  "		p.panicfAtToken(&p.Token, `expect '{' or '(' after %v, but %v`, namedType.SQL(), p.Token.Kind)")
+m("number-early-return", ["C03", "C13"], "break", "lexer.go",
+  "	l.skipN(i)\n	if int {\n		l.Token.Kind = token.TokenInt",
+  "	if noPanic && i == 0 {\n		l.Token.Kind = token.TokenBad\n		return\n	}\n	l.skipN(i)\n	if int {\n		l.Token.Kind = token.TokenInt")
+m("subquery-lookahead-drops-limit", ["C08"], "break", "parser.go",
+  "	case \"UNION\", \"INTERSECT\", \"EXCEPT\", \"ORDER\", \"LIMIT\", \"FOR\", \"|>\":",
+  "	case \"UNION\", \"INTERSECT\", \"EXCEPT\", \"ORDER\", \"FOR\", \"|>\":")
+
+m("error-range-swapped", ["C09"], "break", "lexer.go",
+  "l.panicfAtPosition(pos, token.Pos(l.pos), \"unclosed comment\")",
+  "l.panicfAtPosition(token.Pos(l.pos), pos, \"unclosed comment\")", "Position.Pos > Position.End for an unclosed comment")
+
 def sh(cmd, cwd=None):
     return subprocess.run(cmd, shell=True, cwd=cwd, capture_output=True, text=True)
 
